@@ -265,7 +265,7 @@ func TestProp_CLIVerdict(t *testing.T) {
 			FailEvery:   rapid.SampledFrom([]int{0, 0, 2, 3, 7, 20}).Draw(rt, "failEvery"),
 			FailFirst:   rapid.SampledFrom([]int{0, 0, 1, 3}).Draw(rt, "failFirst"),
 			MaxFailures: rapid.SampledFrom([]uint64{0, 0, 1, 3, 10}).Draw(rt, "maxFailures"),
-			MaxRate:     rapid.SampledFrom([]int{0, 0, 5, 33, 50}).Draw(rt, "maxRate"),
+			MaxRate:     rapid.SampledFrom([]int{0, 0, 5, 33, 50, 100, 100}).Draw(rt, "maxRate"),
 			Ignore:      rapid.Bool().Draw(rt, "ignore"),
 			Drops:       rapid.IntRange(0, 3).Draw(rt, "drops") == 0,
 		}
